@@ -6,6 +6,8 @@
 mod util;
 #[path = "../codec_common.rs"]
 mod cc;
+#[path = "../codec_structs.rs"]
+mod st;
 use cc::*;
 use opcua::core::comms::message_chunk::{MessageChunk, MessageChunkHeader, MessageChunkType, MessageIsFinalType};
 use opcua::core::comms::tcp_types::*;
@@ -50,13 +52,15 @@ impl<'a> Read for DepthReader<'a> {
 }
 
 pub enum Case {
-    Bytes { dk: u8, o: HOpts, bs: Vec<u8> },
-    Nest { dk: u8, o: HOpts, unit: Vec<u8>, n: u32, tail: Vec<u8> },
+    Bytes { dk: u32, o: HOpts, bs: Vec<u8> },
+    Nest { dk: u32, o: HOpts, unit: Vec<u8>, n: u32, tail: Vec<u8> },
     Sizes,
 }
 pub struct P;
 
-fn ty_of(dk: u8) -> Option<Ty> {
+fn ty_of(dk: u32) -> Option<Ty> {
+    if dk > 255 { return None }
+    let dk = dk as u8;
     match dk {
         23 => Some(Ty::DV), 24 => Some(Ty::Var),
         1..=25 => Some(Ty::S(dk)),
@@ -65,7 +69,7 @@ fn ty_of(dk: u8) -> Option<Ty> {
         _ => None,
     }
 }
-pub const DKS: [u8; 48] = [1, 2, 3, 4, 5, 6, 7, 8, 9, 10, 11, 12, 13, 14, 15, 16, 17, 18, 19, 20, 21, 22, 23, 24, 25,
+pub const DKS: [u32; 48] = [1, 2, 3, 4, 5, 6, 7, 8, 9, 10, 11, 12, 13, 14, 15, 16, 17, 18, 19, 20, 21, 22, 23, 24, 25,
     31, 33, 36, 37, 41, 42, 43, 45, 47, 48, 49, 50, 51, 52, 55, 53, 54, 70, 71, 72, 73, 74, 75];
 
 fn msg_type_code(t: &MessageType) -> i128 { match t { MessageType::Invalid => 0, MessageType::Hello => 1, MessageType::Acknowledge => 2, MessageType::Chunk => 3, MessageType::Error => 4 } }
@@ -73,7 +77,7 @@ fn p_header(h: &MessageHeader, p: &mut Vec<i128>) { p.push(msg_type_code(&h.mess
 fn p_ustr(s: &UAString, p: &mut Vec<i128>) { match s.value() { None => p.push(0), Some(v) => { p.push(1); p.push(v.len() as i128); p.extend(v.as_bytes().iter().map(|b| *b as i128)) } } }
 
 /// decode `bs` with decoder `dk`: (outcome: Ok(print) / Err, consumed, depth)
-fn decode(dk: u8, o: &HOpts, bs: &[u8]) -> (Result<Vec<i128>, ()>, u64, u64) {
+fn decode(dk: u32, o: &HOpts, bs: &[u8]) -> (Result<Vec<i128>, ()>, u64, u64) {
     let ro = o.real();
     if let Some(t) = ty_of(dk) {
         let mut s = DepthReader { cur: Cursor::new(bs), gauge: ro.decoding_depth_gauge.clone(), max_seen: 0 };
@@ -83,6 +87,12 @@ fn decode(dk: u8, o: &HOpts, bs: &[u8]) -> (Result<Vec<i128>, ()>, u64, u64) {
         let res = r.map(|v| { let mut p = Vec::new(); s_uval(&mut p, &v); p }).map_err(|_| ());
         TRACK.store(was, Ordering::Relaxed);
         return (res, pos, s.max_seen);
+    }
+    if dk >= 100 {
+        // a generated structure: outcome, position and depth only (no printer, allocation sizes not modelled)
+        let mut s = DepthReader { cur: Cursor::new(bs), gauge: ro.decoding_depth_gauge.clone(), max_seen: 0 };
+        let ok = st::observe((dk - 100) as usize, &ro, &mut s);
+        return (if ok { Ok(vec![]) } else { Err(()) }, s.cur.position(), s.max_seen);
     }
     let mut s = Cursor::new(bs);
     let mut p: Vec<i128> = Vec::new();
@@ -105,13 +115,13 @@ fn decode(dk: u8, o: &HOpts, bs: &[u8]) -> (Result<Vec<i128>, ()>, u64, u64) {
 }
 
 /// run one decode with tracking; the canonical output of Model.run
-fn observe(dk: u8, o: &HOpts, bs: &[u8]) -> Vec<i128> {
+fn observe(dk: u32, o: &HOpts, bs: &[u8]) -> Vec<i128> {
     MAX_REQ.store(0, Ordering::Relaxed);
     TRACK.store(true, Ordering::Relaxed);
     let r = guarded(|| decode(dk, o, bs));
     TRACK.store(false, Ordering::Relaxed);
     let al = MAX_REQ.load(Ordering::Relaxed);
-    let al = if al >= ALLOC_FLOOR { al as i128 } else { 0 };
+    let al = if al >= ALLOC_FLOOR && dk < 100 { al as i128 } else { 0 };
     match r {
         Err(_) => vec![-2],
         Ok((Err(_), _, depth)) => vec![-1, depth as i128, al],
@@ -120,7 +130,7 @@ fn observe(dk: u8, o: &HOpts, bs: &[u8]) -> Vec<i128> {
 }
 
 /// accepted chunks are printed whole: keep them small
-fn small_chunks(dk: u8, o: HOpts) -> HOpts { if dk == 75 { HOpts { max_msg: 48, ..o } } else { o } }
+fn small_chunks(dk: u32, o: HOpts) -> HOpts { if dk == 75 { HOpts { max_msg: 48, ..o } } else { o } }
 
 fn nest_bytes(unit: &[u8], n: u32, tail: &[u8]) -> Vec<u8> {
     let mut b = Vec::with_capacity(unit.len() * n as usize + tail.len());
@@ -134,7 +144,7 @@ fn child_main(args: &[String]) {
     // --child dk max_str max_bstr max_arr max_msg max_depth offset n unit_hex tail_hex
     let num = |i: usize| args[i].parse::<i64>().unwrap_or(0);
     let hex = |s: &str| -> Vec<u8> { (0..s.len() / 2).map(|i| u8::from_str_radix(&s[2 * i..2 * i + 2], 16).unwrap_or(0)).collect() };
-    let dk = num(0) as u8;
+    let dk = num(0) as u32;
     let o = HOpts { max_str: num(1), max_bstr: num(2), max_arr: num(3), max_msg: num(4), max_depth: num(5), offset_ns: num(6) };
     let bs = nest_bytes(&hex(&args[8]), num(7) as u32, &hex(args.get(9).map(|s| s.as_str()).unwrap_or("")));
     std::panic::set_hook(Box::new(|_| {}));
@@ -142,7 +152,7 @@ fn child_main(args: &[String]) {
     let out = h.join().unwrap_or_else(|_| vec![-2]);
     println!("RESULT {}", out.iter().map(|x| x.to_string()).collect::<Vec<_>>().join(" "));
 }
-fn run_child(dk: u8, o: &HOpts, unit: &[u8], n: u32, tail: &[u8]) -> Vec<i128> {
+fn run_child(dk: u32, o: &HOpts, unit: &[u8], n: u32, tail: &[u8]) -> Vec<i128> {
     let hexs = |b: &[u8]| b.iter().map(|x| format!("{:02x}", x)).collect::<String>();
     let exe = std::env::current_exe().unwrap();
     let outp = std::process::Command::new(exe)
@@ -161,7 +171,7 @@ fn run_child(dk: u8, o: &HOpts, unit: &[u8], n: u32, tail: &[u8]) -> Vec<i128> {
 }
 
 /// the recursion graph of the decoders: units that re-enter a decoder once per repetition
-fn nest_families() -> Vec<(u8, Vec<u8>, Vec<u8>, &'static str)> {
+fn nest_families() -> Vec<(u32, Vec<u8>, Vec<u8>, &'static str)> {
     vec![
         (24, vec![24], vec![1, 1], "variant-in-variant"),
         (24, vec![23, 1], vec![0], "datavalue-in-variant"),
@@ -189,7 +199,7 @@ impl Property for P {
         }
         // allocation: lengths at / above the limits with no data behind them
         let le = |x: i32| x.to_le_bytes().to_vec();
-        for (dk, pre) in [(12u8, vec![]), (15, vec![]), (24, vec![12]), (36, vec![]), (24, vec![134]), (54, vec![]), (53, vec![]), (24, vec![152])] {
+        for (dk, pre) in [(12u32, vec![]), (15, vec![]), (24, vec![12]), (36, vec![]), (24, vec![134]), (54, vec![]), (53, vec![]), (24, vec![152])] {
             for o in [HOpts::default(), HOpts::minimal(), HOpts { max_str: 200_000, max_bstr: 300_000, max_arr: 50_000, ..HOpts::default() }] {
                 for l in [o.max_str as i32, o.max_bstr as i32, o.max_arr as i32, o.max_arr as i32 + 1, i32::MAX, 4096] {
                     let mut bs = pre.clone(); bs.extend(le(l)); bs.extend([0u8, 0, 0]);
@@ -227,6 +237,13 @@ impl Property for P {
             2 => HOpts { offset_ns: r.range(-5_000_000_000, 5_000_000_000), ..HOpts::default() },
             _ => HOpts::default(),
         };
+        if r.chance(1, 6) {
+            // a generated structure: valid encoding, mutated
+            let (idx, mut bs) = st::gen_case(r);
+            for _ in 0..r.below(3) { if bs.is_empty() { break } let i = r.below(bs.len() as u64) as usize; bs[i] = r.next() as u8; }
+            if bs.len() > 160 { bs.truncate(160); }
+            return Case::Bytes { dk: 100 + idx as u32, o, bs };
+        }
         match r.below(10) {
             // purely random bytes
             0 | 1 => { let dk = *r.pick(&DKS); let n = 1 + r.below(24) as usize; let o = small_chunks(dk, o); Case::Bytes { dk, o, bs: r.bytes(n) } }
@@ -238,11 +255,11 @@ impl Property for P {
             4..=8 => {
                 let depth = 2;
                 let (dk, t, v) = match r.below(8) {
-                    0..=3 => (24u8, Ty::Var, UVal::V(g_variant(r, depth, 5))),
+                    0..=3 => (24u32, Ty::Var, UVal::V(g_variant(r, depth, 5))),
                     4 => (23, Ty::DV, UVal::D(g_datavalue(r, depth - 1, 5))),
-                    5 => { let k = *r.pick(&ARRAY_ELEMS); let n = r.below(3) as usize; (30 + k, Ty::Arr(Box::new(Ty::S(k))), UVal::A(Some((0..n).map(|_| UVal::S(g_scalar(r, k, 1, 5))).collect()))) }
+                    5 => { let k = *r.pick(&ARRAY_ELEMS); let n = r.below(3) as usize; (30 + k as u32, Ty::Arr(Box::new(Ty::S(k))), UVal::A(Some((0..n).map(|_| UVal::S(g_scalar(r, k, 1, 5))).collect()))) }
                     6 => { let n = r.below(3) as usize; (54, Ty::Arr(Box::new(Ty::Var)), UVal::A(Some((0..n).map(|_| UVal::V(g_variant(r, depth, 5))).collect()))) }
-                    _ => { let k = *r.pick(&SCALAR_KINDS); (k, Ty::S(k), UVal::S(g_scalar(r, k, 1, 5))) }
+                    _ => { let k = *r.pick(&SCALAR_KINDS); (k as u32, Ty::S(k), UVal::S(g_scalar(r, k, 1, 5))) }
                 };
                 let mut bs = Vec::new();
                 let _ = enc_typed(&t, &v, &mut bs);
